@@ -69,7 +69,9 @@ func VerifC02Recv() {
 
 // VerifC02Ack: AcknowledgePacket accepts only if this chain still holds the commitment of exactly the decoded packet
 // and the destination chain's client verified the hash of exactly the acknowledgement bytes of the message.
-func VerifC02Ack() {
+func VerifC02Ack() { c02Ack() }
+
+func c02Ack() {
 	w := newWorld(2 + rt.Tier())
 	msg := &types.MsgAcknowledgement{Packet: rt.Bytes("packetBytes"), Acknowledgement: rt.Bytes("ackBytes"), ProofAcked: rt.Bytes("proof"),
 		ProofHeight: clienttypes.Height{RevisionNumber: rt.U64("rev"), RevisionHeight: rt.U64("height")}, Signer: rt.Str("signer")}
